@@ -115,6 +115,15 @@ Step(st, ev) ==
     (* ---- scalars (the zero value is a valid zero: no panics) ---- *)
     [] ev.op = "sc.Add"      -> Ok(SetSc(st, ev.s, SAdd(ScOf(st, ev.p), ScOf(st, ev.q))))
     [] ev.op = "sc.Multiply" -> Ok(SetSc(st, ev.s, SMul(ScOf(st, ev.p), ScOf(st, ev.q))))
+    [] ev.op = "sc.Subtract" -> Ok(SetSc(st, ev.s, SSub(ScOf(st, ev.p), ScOf(st, ev.q))))
+    [] ev.op = "sc.Square"   -> Ok(SetSc(st, ev.s, SMul(ScOf(st, ev.p), ScOf(st, ev.p))))
+    [] ev.op = "sc.Sum"      -> Ok(SetSc(st, ev.s, SAdd(SAdd(ScOf(st, ev.p), ScOf(st, ev.q)), ScOf(st, ev.t))))   \* variadic, three operands: the receiver may be ANY of them
+    [] ev.op = "sc.Product"  -> Ok(SetSc(st, ev.s, SMul(SMul(ScOf(st, ev.p), ScOf(st, ev.q)), ScOf(st, ev.t))))
+    [] ev.op = "sc.CondNegate" -> Ok(SetSc(st, ev.s, IF ev.c = 0 THEN ScOf(st, ev.p) ELSE SNeg(ScOf(st, ev.p))))
+    [] ev.op = "sc.CondSelect" -> Ok(SetSc(st, ev.s, IF ev.c = 0 THEN ScOf(st, ev.p) ELSE ScOf(st, ev.q)))
+    [] ev.op = "sc.Equal"    -> OkR(st, IF st.sc[ev.p] = st.sc[ev.q] THEN 1 ELSE 0)
+    [] ev.op = "sc.IsZero"   -> OkR(st, IF BigEq(ScOf(st, ev.p), 0) THEN 1 ELSE 0)
+    [] ev.op = "sc.IsGreaterThanHalfN" -> OkR(st, IF SGreaterThanHalfN(ScOf(st, ev.p)) THEN 1 ELSE 0)
     [] ev.op = "sc.Negate"   -> Ok(SetSc(st, ev.s, SNeg(ScOf(st, ev.p))))
     [] ev.op = "sc.Invert"   -> Ok(SetSc(st, ev.s, SInv(ScOf(st, ev.p))))
     [] ev.op = "sc.SetBytes" ->
